@@ -294,3 +294,127 @@ Proof.
   unfold ls_of in H. rewrite tr_pre_nil in H. rewrite max_steps_react in H at 2.
   unfold agent_run. rewrite <- H. reflexivity.
 Qed.
+
+Local Open Scope nat_scope.
+Local Open Scope string_scope.
+
+(* ---- the supersteps of the run: one node each, chat and tools alternating ------------------ *)
+Section Supersteps.
+  Variable tn : list call -> res (list tmsg).
+  Variable rd : string -> bool.
+  Variable rdn : bool.
+  Variable modifier : list msg -> list msg.
+  Variable visible : call -> bool.
+  Variable checker : list chunk -> bool.
+  Variable md : React.mode.
+  Variable max_step : nat.
+  Variable sub : nat -> path -> rval -> rstate -> Graph.outcome rval * rstate.
+
+  Notation ops := (react_ops checker).
+  Notation g := (react_graph rdn max_step).
+  Notation rexec := (react_exec tn rd rdn modifier visible md).
+  Notation iter := (iterate rval rstate ops rexec sub sched_first [] g).
+  Notation E := (E rdn max_step).
+
+  (* which node can follow which *)
+  Definition follows (k k' : key) : Prop :=
+    (k = kChat /\ k' = kTools)
+    \/ (k = kTools /\ k' = kChat)
+    \/ (rdn = true /\ k = kTools /\ k' = kDirect).
+
+  (* routing a single finished task of the ReAct graph never fails and yields END or exactly one
+     next task, whatever value the node returned *)
+  Lemma calc_single : forall k o,
+    is_react_node rdn k = true ->
+    exists k', calc_next rval ops g E [(k, o)] = Ok (E, [(k', o)]) /\ (k' = kEND \/ follows k k').
+  Proof.
+    intros k o Hk. unfold is_react_node in Hk.
+    assert (Hcases : k = kChat \/ k = kTools \/ (rdn = true /\ k = kDirect)).
+    { apply orb_true_iff in Hk. destruct Hk as [Hk|Hk].
+      - apply orb_true_iff in Hk. destruct Hk as [Hk|Hk]; apply N.eqb_eq in Hk; auto.
+      - apply andb_true_iff in Hk. destruct Hk as [Hr Hk]. apply N.eqb_eq in Hk. auto. }
+    unfold follows. unfold Proofs.ReactGraph.E.
+    destruct Hcases as [Hk1|[Hk1|[Hr Hk1]]]; subst k.
+    - destruct o as [ms|chunks m|rs d|m]; try destruct (checker chunks) eqn:Hc; try destruct d; destruct rdn;
+        eexists; (split; [cbv -[N.modulo]; try rewrite Hc; vm_compute; reflexivity|]); vm_compute; auto.
+    - destruct o as [ms|chunks m|rs d|m]; try destruct (checker chunks) eqn:Hc; try destruct d; destruct rdn;
+        eexists; (split; [cbv -[N.modulo]; try rewrite Hc; vm_compute; reflexivity|]); auto 10.
+    - rewrite Hr. destruct o as [ms|chunks m|rs d|m]; try destruct (checker chunks) eqn:Hc; try destruct d;
+        eexists; (split; [cbv -[N.modulo]; try rewrite Hc; vm_compute; reflexivity|]); auto.
+  Qed.
+
+  Fixpoint chain_ok (k : key) (ks : list key) : Prop :=
+    match ks with
+    | [] => True
+    | k0 :: rest => k0 = k /\ (rest = [] \/ exists k1, follows k k1 /\ chain_ok k1 rest)
+    end.
+
+  Lemma nodes_log_step : forall (lg : log rval) k (v : rval),
+    nodes_log (lg ++ [step_entry rval [] [(k, v)]])%list = (nodes_log lg ++ [[k]])%list.
+  Proof. intros. unfold nodes_log. rewrite map_app. reflexivity. Qed.
+
+  Lemma follows_node : forall k k', follows k k' -> is_react_node rdn k' = true /\ N.eqb kEND k' = false.
+  Proof.
+    intros k k' [[_ H]|[[_ H]|[Hr [_ H]]]]; subst k'; unfold is_react_node; rewrite ?Hr; split; reflexivity.
+  Qed.
+
+  Lemma iter_S' : forall f ls,
+    iter (S f) ls = match Graph.step rval rstate ops rexec sub sched_first [] g ls with
+                    | Finish o s => (o, s)
+                    | Continue ls' => iter f ls'
+                    end.
+  Proof. reflexivity. Qed.
+
+  Lemma iterate_log : forall af n k v s lg,
+    is_react_node rdn k = true ->
+    (n + af = max_steps g)%nat ->
+    exists ks,
+      nodes_log (outcome_log rval (fst (iter (S af) (ls_of rdn max_step n k v s lg))))
+      = (nodes_log lg ++ map (fun k => [k]) ks)%list
+      /\ chain_ok k ks.
+  Proof.
+    induction af as [|af IH]; intros n k v s lg Hk Hn.
+    - rewrite iter_S'. unfold Graph.step, step_limit_hit, ls_of.
+      cbn [ls_next ls_st ls_log ls_running ls_step ls_chans g_mode react_graph].
+      replace (Nat.leb (max_steps g) n) with true by (symmetry; apply Nat.leb_le; lia).
+      exists []. cbn [fst outcome_log map]. rewrite app_nil_r. split; [reflexivity|exact I].
+    - assert (Hlim : Nat.leb (max_steps g) n = false) by (apply Nat.leb_gt; lia).
+      rewrite iter_S'. rewrite step_node by auto. cbv zeta.
+      destruct (fst (rexec s [k] v)) as [o|c|].
+      + destruct (calc_single k o Hk) as [k' [Hc Hnext]]. rewrite Hc.
+        destruct Hnext as [He|Hf].
+        * subst k'. cbn [nlist_get N.eqb kEND Pos.eqb fst outcome_log].
+          exists [k]. rewrite nodes_log_step. split; [reflexivity|]. simpl. auto.
+        * destruct (follows_node _ _ Hf) as [Hk' Hne].
+          cbn [nlist_get]. rewrite Hne.
+          destruct (IH (S n) k' o (snd (rexec s [k] v)) (lg ++ [step_entry rval [] [(k, v)]])%list Hk' ltac:(lia))
+            as [ks [Hl Hch]].
+          unfold ls_of in Hl. exists (k :: ks). split.
+          -- rewrite Hl. rewrite nodes_log_step. rewrite <- app_assoc. reflexivity.
+          -- simpl. split; auto. right. exists k'. auto.
+      + exists [k]. cbn [fst outcome_log]. rewrite nodes_log_step. split; [reflexivity|]. simpl. auto.
+      + exists [k]. cbn [fst outcome_log]. rewrite nodes_log_step. split; [reflexivity|]. simpl. auto.
+  Qed.
+End Supersteps.
+
+(* every superstep of the engine's run of the ReAct graph executes exactly one node; the first is
+   chat, after chat comes tools (or the run ends), after tools comes chat — or direct_return, only
+   with a return-directly set, after which the run ends *)
+Theorem engine_supersteps_alternate : forall tn rd rdn modifier visible checker md max_step script input,
+  exists ks,
+    engine_supersteps tn rd rdn modifier visible checker md max_step script input
+    = [] :: map (fun k => [k]) ks
+    /\ chain_ok rdn kChat ks.
+Proof.
+  intros. unfold engine_supersteps, engine_run, Graph.run, run_nest, run_flat.
+  assert (Hi : init_chans rval (react_graph rdn max_step) = Ok (E rdn max_step)) by reflexivity.
+  rewrite Hi. rewrite calc_start. cbn [nlist_get N.eqb kEND kChat Pos.eqb].
+  unfold loop_fuel. cbn [g_mode react_graph]. unfold init_state.
+  match goal with
+  | |- exists ks, nodes_log (outcome_log _ (fst (iterate _ _ _ _ ?sub _ _ _ _ _))) = _ /\ _ =>
+      destruct (iterate_log tn rd rdn modifier visible checker md max_step sub
+                  (max_steps (react_graph rdn max_step)) 0 kChat (RIn input) (init_rstate script)
+                  [run_marker rval []] eq_refl eq_refl) as [ks [Hl Hc]]
+  end.
+  exists ks. split; [|exact Hc]. unfold ls_of in Hl. rewrite Hl. reflexivity.
+Qed.
